@@ -13,6 +13,7 @@
 package aac
 
 import (
+	"context"
 	"fmt"
 	"math/big"
 	"os"
@@ -54,6 +55,7 @@ type vC07Fam struct {
 	build func(n int) []byte
 	key   string // known-finding key this family is allowed to hit ("" = none)
 	cost  string // name of the step-counting cost model of Proofs/TotalCostDef.v for this decoder ("" = none)
+	costMax int  // largest input size handed to the cost model (0 = 64 KiB)
 }
 
 type vC07Out struct {
@@ -271,11 +273,11 @@ func vC07CPU() time.Duration {
 }
 
 // median of 5 thread-CPU-time measurements of one decoder call
-func vC07Time(d *vC07Dec, b []byte) time.Duration {
+func vC07Time(d *vC07Dec, b []byte, reps int) time.Duration {
 	runtime.LockOSThread()
 	defer runtime.UnlockOSThread()
 	var ts []time.Duration
-	for i := 0; i < 5; i++ {
+	for i := 0; i < reps; i++ {
 		in := append([]byte{}, b...)
 		t0 := vC07CPU()
 		func() {
@@ -439,24 +441,36 @@ func (dr *vC07Driver) sweepHelper(h *vC07Helper) {
 	rec(0, nil)
 }
 
-// timing of one family: T(8K), T(16K), T(32K), T(64K)
+// timing of one family: T(8K) ... T(64K), then -- when 64 KiB takes less than 250 ms -- doubling on
+// up to 1 MiB or until one run exceeds 1.5 s.  Violation: three CONSECUTIVE doublings each with
+// T(2n)/T(n) >= 3.5 and the T at the end of those doublings >= 250 ms (linear code shows ratios
+// near 2 at every size).  The case records the family name and the largest size measured.
+func vC07SizeName(n int) string {
+	if n >= 1<<20 {
+		return fmt.Sprintf("%dM", n>>20)
+	}
+	return fmt.Sprintf("%dK", n>>10)
+}
+
 func (dr *vC07Driver) runFam(f *vC07Fam) {
 	k := dr.k
 	d := dr.dec(f.dec)
-	c := vL(vZ(3), vS(f.name))
-	idx := k.record(c, vOk(), true)
 	if d == nil {
+		idx := k.record(vL(vZ(3), vS(f.name), vI(0)), vOk(), true)
 		k.fail(idx, 1, "timing", "", "family "+f.name+": unknown decoder "+f.dec)
 		return
 	}
-	sizes := []int{8192, 16384, 32768, 65536}
-	var ts []time.Duration
-	var inputs [][]byte
 	if dr.stalled[d.name] {
 		k.count("skipped-after-stall", d.name)
 		return
 	}
-	for _, n := range sizes {
+	var ts []time.Duration
+	var inputs [][]byte
+	var sizes []int
+	for n := 8192; n <= 1<<20; n *= 2 {
+		if n > 65536 && (ts[len(ts)-1] >= 250*time.Millisecond && n == 131072 || ts[len(ts)-1] > 1500*time.Millisecond) {
+			break
+		}
 		b := f.build(n)
 		if len(b) > n {
 			b = b[:n]
@@ -464,25 +478,39 @@ func (dr *vC07Driver) runFam(f *vC07Fam) {
 		// guarded probe first: the measured calls below run without a watchdog
 		if o := vC07Exec(d, append([]byte{}, b...), 30*time.Second); o.class >= 2 {
 			dr.stalled[d.name] = o.class == 3
+			idx := k.record(vL(vZ(3), vS(f.name), vI(n)), vOk(), true)
 			k.fail(idx, len(b), []string{"never-panics", "watchdog"}[o.class-2], "", fmt.Sprintf("%s on family %s at %d bytes: %s", d.name, f.name, len(b), o.msg))
 			return
 		}
+		reps := 5
+		if n > 262144 {
+			reps = 3
+		}
+		sizes = append(sizes, n)
 		inputs = append(inputs, b)
-		ts = append(ts, vC07Time(d, b))
+		ts = append(ts, vC07Time(d, b, reps))
 	}
-	detail := fmt.Sprintf("%s on %s: 8K %v, 16K %v, 32K %v, 64K %v", f.dec, f.name, ts[0], ts[1], ts[2], ts[3])
+	idx := k.record(vL(vZ(3), vS(f.name), vI(sizes[len(sizes)-1])), vOk(), true)
+	detail := f.dec + " on " + f.name + ":"
+	for i := range sizes {
+		detail += fmt.Sprintf(" %s %v,", vC07SizeName(sizes[i]), ts[i])
+	}
+	detail = strings.TrimRight(detail, ",")
 	k.count("timing", detail)
 	if f.cost != "" {
-		dr.costBand(f, inputs, ts)
+		dr.costBand(f, idx, sizes, inputs, ts)
 	}
-	super := true
+	run := 0
 	for i := 0; i+1 < len(ts); i++ {
-		if ts[i] <= 0 || float64(ts[i+1])/float64(ts[i]) < 3.5 {
-			super = false
+		if ts[i] > 0 && float64(ts[i+1])/float64(ts[i]) >= 3.5 {
+			run++
+		} else {
+			run = 0
 		}
-	}
-	if super && ts[3] >= 250*time.Millisecond {
-		k.fail(idx, 1, "linear-time", f.key, "T(2n)/T(n) >= 3.5 on three consecutive doublings and T(64 KiB) >= 250 ms: "+detail)
+		if run >= 3 && ts[i+1] >= 250*time.Millisecond {
+			k.fail(idx, 1, "linear-time", f.key, fmt.Sprintf("T(2n)/T(n) >= 3.5 on three consecutive doublings ending at %s with T >= 250 ms: %s", vC07SizeName(sizes[i+1]), detail))
+			break
+		}
 	}
 }
 
@@ -490,8 +518,19 @@ func (dr *vC07Driver) runFam(f *vC07Fam) {
 // Coq cost model (extracted, asked from the model runner that ./check built) against the measured
 // thread CPU time on the same four inputs; a faithful cost model keeps ns/step within a narrow band
 // across 8/16/32/64 KiB.  Written to the "cost-vs-cpu" histogram of the evidence.
-func (dr *vC07Driver) costBand(f *vC07Fam, inputs [][]byte, ts []time.Duration) {
+func (dr *vC07Driver) costBand(f *vC07Fam, idx int, sizes []int, inputs [][]byte, ts []time.Duration) {
 	k := dr.k
+	{
+		// beyond costMax (default 64 KiB) the extracted cost function itself is too slow: the owners'
+		// models recompute the length of the remaining segment at every element
+		max := f.costMax
+		if max == 0 {
+			max = 65536
+		}
+		for len(sizes) > 0 && sizes[len(sizes)-1] > max {
+			sizes, inputs, ts = sizes[:len(sizes)-1], inputs[:len(inputs)-1], ts[:len(ts)-1]
+		}
+	}
 	exe := os.Getenv("VERIF_DIR") + "/build/modelrun_C07"
 	if _, err := os.Stat(exe); err != nil {
 		return
@@ -501,7 +540,9 @@ func (dr *vC07Driver) costBand(f *vC07Fam, inputs [][]byte, ts []time.Duration) 
 		in.WriteString(vL(vZ(5), vS(f.cost), vB(b)).String())
 		in.WriteByte('\n')
 	}
-	cmd := exec.Command("sh", "-c", "ulimit -s unlimited 2>/dev/null; exec "+exe)
+	ctx, cancel := context.WithTimeout(context.Background(), 120*time.Second)
+	defer cancel()
+	cmd := exec.CommandContext(ctx, "sh", "-c", "ulimit -s unlimited 2>/dev/null; exec "+exe)
 	cmd.Stdin = strings.NewReader(in.String())
 	out, err := cmd.Output()
 	if err != nil {
@@ -525,24 +566,42 @@ func (dr *vC07Driver) costBand(f *vC07Fam, inputs [][]byte, ts []time.Duration) 
 	}
 	lo, hi := 0.0, 0.0
 	desc := ""
+	var rs []float64
 	for i := range steps {
 		r := 0.0
 		if steps[i] > 0 {
 			r = float64(ts[i].Nanoseconds()) / steps[i]
 		}
+		rs = append(rs, r)
 		if i == 0 || r < lo {
 			lo = r
 		}
 		if i == 0 || r > hi {
 			hi = r
 		}
-		desc += fmt.Sprintf(" %.0f steps %.2f ns/step;", steps[i], r)
+		desc += fmt.Sprintf(" %s %.0f steps %.2f ns/step;", vC07SizeName(sizes[i]), steps[i], r)
 	}
 	band := 0.0
 	if lo > 0 {
 		band = hi / lo
 	}
-	k.count("cost-vs-cpu", fmt.Sprintf("%s (%s): 8/16/32/64 KiB:%s band max/min = %.2f", f.name, f.cost, desc, band))
+	line := fmt.Sprintf("%s (%s):%s band max/min = %.2f", f.name, f.cost, desc, band)
+	k.count("cost-vs-cpu", line)
+	// the tie of the cost theorems to the code: if the time per model step grows 3x per doubling on
+	// three consecutive doublings (and the time is not noise), the code no longer performs the
+	// steps the model counts -- a correspondence break of the cost model
+	run := 0
+	for i := 0; i+1 < len(rs); i++ {
+		if rs[i] > 0 && rs[i+1]/rs[i] >= 3 {
+			run++
+		} else {
+			run = 0
+		}
+		if run >= 3 && ts[i+1] >= 250*time.Millisecond {
+			k.fail(idx, 1, "cost-model-tie", "", "CPU time per step of the cost model (c07_cost_linear_*) grows >= 3x per doubling on three consecutive doublings: "+line)
+			break
+		}
+	}
 }
 
 func (dr *vC07Driver) replay(c vSx) {
